@@ -571,7 +571,7 @@ func writeEvidence(id, tier string, seed uint64, pc tierCfg, agg *workerOut, fps
 	if meta.Assumptions == nil {
 		meta.Assumptions = []string{}
 	}
-	var knownSeen []string
+	knownSeen := []string{}
 	for _, k := range sortedKeys(agg.KnownSeen) {
 		knownSeen = append(knownSeen, fmt.Sprintf("%s (x%d)", k, agg.KnownSeen[k]))
 	}
@@ -584,25 +584,26 @@ func writeEvidence(id, tier string, seed uint64, pc tierCfg, agg *workerOut, fps
 		runWall = wall
 	}
 	cov := map[string]any{
-		"evaluations":         agg.Evals,
-		"distinct_nontrivial": len(fps),
-		"rule":                meta.Rule,
-		"samples":             samples,
-		"runs":                agg.Runs,
-		"nontrivial_runs":     agg.Nontrivial,
-		"runs_per_hour":       int64(float64(agg.Runs) / runWall * 3600),
-		"seeds":               fmt.Sprintf("VERIF_SEED=%d, run index i uses tape seed splitmix(VERIF_SEED, i)", seed),
-		"sim_time_covered_s":  agg.SimTimeS,
-		"steps_total":         agg.Steps,
-		"scenarios":           agg.Scenarios,
-		"faults_fired":        agg.Faults,
-		"probes_hit":          agg.Probes,
-		"policies":            agg.Policies,
-		"distinct_schedules":  len(fps),
-		"components":          map[string]any{"real": meta.Real, "stub": meta.Stub, "not_run": meta.NotRun},
-		"known_findings_seen": knownSeen,
-		"build_s":             buildS,
-		"exhaustive":          false,
+		"evaluations":          agg.Evals,
+		"distinct_nontrivial":  len(fps),
+		"rule":                 meta.Rule,
+		"samples":              samples,
+		"runs":                 agg.Runs,
+		"nontrivial_runs":      agg.Nontrivial,
+		"runs_per_hour":        int64(float64(agg.Runs) / runWall * 3600),
+		"seeds":                fmt.Sprintf("VERIF_SEED=%d, run index i uses tape seed splitmix(VERIF_SEED, i)", seed),
+		"sim_time_covered_s":   agg.SimTimeS,
+		"steps_total":          agg.Steps,
+		"scenarios":            agg.Scenarios,
+		"faults_fired":         agg.Faults,
+		"probes_hit":           agg.Probes,
+		"policies":             agg.Policies,
+		"distinct_schedules":   len(fps),
+		"components":           map[string]any{"real": meta.Real, "stub": meta.Stub, "not_run": meta.NotRun},
+		"known_findings_seen":  knownSeen,
+		"build_s":              buildS,
+		"determinism_selftest": loadSelftest(id),
+		"exhaustive":           false,
 	}
 	if agg.Porcupine[0]+agg.Porcupine[1]+agg.Porcupine[2] > 0 {
 		cov["porcupine"] = map[string]int64{"ok": agg.Porcupine[0], "illegal": agg.Porcupine[1], "unknown": agg.Porcupine[2]}
@@ -737,9 +738,36 @@ func cmdSelftest(ids []string) int {
 		}
 		fmt.Printf("SELFTEST %s: %d runs x %d executions, mismatching executions: %d\n", id, nRuns, len(results), mism)
 		bad += mism
+		recordSelftest(id, nRuns, len(results), mism)
 	}
 	if bad > 0 {
 		return 2
 	}
 	return 0
+}
+
+// recordSelftest keeps the last determinism self-test result per property in
+// evidence/determinism_selftest.json; writeEvidence quotes it.
+func recordSelftest(id string, runs, executions, mismatches int) {
+	path := filepath.Join(verifDir, "evidence", "determinism_selftest.json")
+	all := map[string]map[string]int{}
+	if raw, err := os.ReadFile(path); err == nil {
+		_ = json.Unmarshal(raw, &all)
+	}
+	all[id] = map[string]int{"run_indices": runs, "executions": executions, "mismatching_executions": mismatches}
+	_ = os.MkdirAll(filepath.Dir(path), 0o755)
+	b, _ := json.MarshalIndent(all, "", " ")
+	_ = os.WriteFile(path, b, 0o644)
+}
+
+func loadSelftest(id string) any {
+	raw, err := os.ReadFile(filepath.Join(verifDir, "evidence", "determinism_selftest.json"))
+	if err != nil {
+		return "not run in this checkout (./check selftest)"
+	}
+	all := map[string]map[string]int{}
+	if json.Unmarshal(raw, &all) != nil || all[id] == nil {
+		return "not run for this property (./check selftest)"
+	}
+	return all[id]
 }
